@@ -27,3 +27,13 @@ Definition varlen_concat (blocks : list (list (list Z))) : list (list Z) :=
   let widths := map (fun b => match b with [] => 0 | r :: _ => zlen r end) blocks in
   let W := fold_left Z.max widths 0 in
   flat_map (fun b => map (fun r => repeat 0 (Z.to_nat (W - zlen r)) ++ r) b) blocks.
+
+(* __eq__ (npdataclass FinalClass.__eq__): same shape and all cells equal, field by field *)
+Section DCEq.
+Variable E : Type.
+Variable eqb : E -> E -> bool.
+Fixpoint list_eqb (a b : list E) : bool :=
+  match a, b with [], [] => true | x :: a', y :: b' => eqb x y && list_eqb a' b' | _, _ => false end.
+Fixpoint obj_eqb (o o' : list (list E)) : bool :=
+  match o, o' with [], _ => true | _, [] => true | f :: r, g :: r' => list_eqb f g && obj_eqb r r' end.   (* zip stops at the shorter *)
+End DCEq.
